@@ -113,7 +113,10 @@ pub fn assemble(pki: &Pki, c: &Value) -> (Vec<u8>, String) {
         _ => {}
     }
     let size = c["size"].as_str().unwrap();
-    if size != "plain" {
+    if size == "x2v" {
+        // one additional signed attribute whose SET OF holds two values (RFC 5652 allows any number)
+        attrs.push(der::seq(&[der::oid(OID_AT_BINARY_SIGNING_TIME), der::set(&[der::octets(&[1]), der::octets(&[2, 2])])]));
+    } else if size != "plain" {
         // one additional signed attribute (binary-signing-time OID, OCTET STRING filler) sized to hit the target total
         let target: usize = size[1..].parse().unwrap();
         let base: usize = attrs.iter().map(|a| a.len()).sum();
@@ -203,7 +206,9 @@ pub fn replay(args: &[String]) {
     }
     // messages created by the library itself: valid for every time within their validity and for no other key
     let r = guarded(|| -> Result<(), (String, String)> {
-        for (i, content) in [&b"x"[..], &vec![0xABu8; 5000][..]].iter().enumerate() {
+        // the validity window in 2024, in 1950 (two-digit years) and across the 2049/2050 boundary (UTCTime -> GeneralizedTime)
+        for (i, content) in [&b"x"[..], &vec![0xABu8; 5000][..], &b"y"[..], &b"z"[..]].iter().enumerate() {
+            EPOCH.store([0usize, 0, 1, 2][i], std::sync::atomic::Ordering::SeqCst);
             let validity = Validity::new(time_of(0), time_of(2));
             let msg = SignedMessage::create(Bytes::copy_from_slice(content), validity, &pki.key("k0"), &pki.signer).map_err(|e| ("created".to_string(), e.to_string()))?;
             let der_bytes = msg.to_captured().into_bytes();
@@ -225,6 +230,7 @@ pub fn replay(args: &[String]) {
         }
         Ok(())
     });
+    EPOCH.store(0, std::sync::atomic::Ordering::SeqCst);
     match r {
         Ok(Ok(())) => {}
         Ok(Err((k, m))) => s.violation(&k, m, json!({"library_created": true})),
